@@ -5,8 +5,15 @@ impl Vm {
   /// Run a laythe function on top of the current stack.
   /// This acts as a hook for native functions to execute laythe function
   pub(super) unsafe fn run_fun(&mut self, callable: Value, args: &[Value]) -> Call { unsafe {
+    // growing the stack allocates, until they are on the stack the callable and
+    // the arguments may be reachable from nowhere but this slice
     let mut fiber = self.fiber;
+    self.push_root(callable);
+    for arg in args {
+      self.push_root(*arg);
+    }
     fiber.ensure_stack(self, args.len() + 1);
+    self.pop_roots(args.len() + 1);
 
     fiber.push(callable);
     for arg in args {
@@ -48,9 +55,16 @@ impl Vm {
   /// Run a laythe method on top of the current stack.
   /// This acts as a hook for native functions to execute laythe function
   pub(super) unsafe fn run_method(&mut self, this: Value, method: Value, args: &[Value]) -> Call { unsafe {
+    // see run_fun, the receiver and the arguments are not on the stack yet
     let mut fiber = self.fiber;
-
+    self.push_root(this);
+    self.push_root(method);
+    for arg in args {
+      self.push_root(*arg);
+    }
     fiber.ensure_stack(self, args.len() + 1);
+    self.pop_roots(args.len() + 2);
+
     fiber.push(this);
     for arg in args {
       fiber.push(*arg);
